@@ -125,7 +125,7 @@ def blit(b):
 
 
 # ------------------------------------------------------------------ cases.v evaluation
-HEADER = """From Coq Require Import ZArith QArith List Bool.
+HEADER = """From Coq Require Import ZArith QArith Qabs List Bool.
 From Coq Require Import PrimFloat.
 Import ListNotations.
 Open Scope Z_scope.
